@@ -103,7 +103,9 @@ def units(tier):
     U = []
     th = tier == 'thorough'
     seen = set()
-    for (_, lab, p) in tensordot_units(tier):
+    # thorough: the quick shapes for every symmetry, the larger shapes for U(1) (each unit runs all three policies)
+    tdu = tensordot_units(tier) if not th else (tensordot_units('quick', syms=ALL_SYMS) + tensordot_units('thorough', syms=('U1',)))
+    for (_, lab, p) in tdu:
         key = (p['sym'], p['nd_a'], p['nd_b'], p['lt_a'], p['lt_b'], p['in_a'], p['in_b'], p['trans_a'], p['trans_b'])
         if key in seen:
             continue
